@@ -78,13 +78,14 @@ let entry_string (e : sentry) : string =
     (cfg_string e.se_cfg)
 
 let trak_string (t : trak) : string =
-  Printf.sprintf "T{%s,%s,%s,%s,%s,%s,%s,%s,%s,%s,%s,%s}"
+  Printf.sprintf "T{%s,%s,%s,%s,%s,%s,%s,%s,%s,%s,%s,%s,%s}"
     (si t.tk_id) (si t.tk_volume) (si t.tk_width) (si t.tk_height) (si t.md_timescale) (si t.md_lang)
     (hex_of_str t.hd_type) (hex_of_str t.hd_name)
     (match t.el_lang with None -> "~" | Some l -> hex_of_str l)
     (S.concat "/" (L.map hex_of_str (mdia_children t)))
     (hex_of_str (mhdr_name t.mi_hdr))
     (S.concat "" (L.map entry_string t.sd_entries))
+    (hex_of_str (trak_shape t))
 
 let state_string (ocs : outcome list) (s : st) : string =
   let oc = S.concat "" (L.map (function OOk -> "o" | OErr -> "e" | OPanic -> "p") ocs) in
